@@ -376,6 +376,41 @@ class Probe:
         e2.insert(pos, new)
         return e2
 
+    def order_with_unsupported(self):
+        """Children the models list but do not implement (Unsupported) still have their place in the sequence: one that arrives late
+        does not let the children after it fall back, and it occurs once."""
+        cls, d = self.cls, self.d
+        order = list(d)
+        for u in [k for k, t in d.items() if ref_decl.kind_of(t) == "unsupported"]:
+            after = [k for k in order[order.index(u) + 1:] if ref_decl.kind_of(d[k]) in ("elem", "sub")]
+            opt, req = ref_decl.mutexes_in_force(cls)
+            pairs = [(y, x) for i, y in enumerate(after) for x in after[i + 1:] if not any(y in g and x in g for g in opt + req)]
+            for y, x in pairs[:3]:
+                try:
+                    args, kwargs = self.base(force=[y, x])
+                    inst = cls(*args, **kwargs)
+                    if inst.__dict__.get(y) is None or inst.__dict__.get(x) is None:
+                        continue
+                    elem = inst.to_etree()
+                    tags = [c.tag for c in elem]
+                    iy, ix = tags.index(self.tag(y)), tags.index(self.tag(x))
+                except Exception:
+                    self.ctx.count("base_failed")
+                    continue
+                ue = ET.Element(self.tag(u))
+                # in its own place: fine (not judged here).  Late, between a later child and an earlier one:
+                e2 = copy.deepcopy(elem)
+                cx = e2[ix]
+                e2.remove(cx)
+                e2.insert(iy, ue)
+                e2.insert(iy, cx)          # ... X, U, Y ...
+                self.ctx.count("orders_with_unsupported_child")
+                self.must_reject("out-of-order-accepted", "etree", lambda e2=e2: self.from_etree(e2), f"{x},{u},{y}")
+                e3 = copy.deepcopy(elem)
+                e3.insert(iy, copy.deepcopy(ue))
+                e3.insert(iy, copy.deepcopy(ue))   # U twice, in its place
+                self.must_reject("duplicate-accepted", "etree", lambda e3=e3: self.from_etree(e3), u + "-unsupported")
+
     def order_and_duplicates(self):
         cls, d = self.cls, self.d
         plain = [k for k, t in d.items() if ref_decl.kind_of(t) in ("elem", "sub")]
@@ -632,6 +667,7 @@ def run_class(ctx, name, cls, seedstr):
     p.per_child()
     p.groups()
     p.order_and_duplicates()
+    p.order_with_unsupported()
     p.order_across_list_runs()
     p.list_members()
 
@@ -640,6 +676,10 @@ def run_shard(ctx):
     online.set_ctx(ctx)
     online.install_init_monitor()
     classes = list(ref_decl.all_classes().items())
+    if ctx.shard % 2 == 1:
+        # every other shard: the non-exported base classes are used (class-level API, instances) before any model class is
+        ctx.count("base_classes_used_first", ref_decl.touch_base_classes())
+        ctx.case_extra = {"base_first": True}
     reps = 2 if ctx.tier == "quick" else 40
     for ci, (name, cls) in enumerate(classes):
         if ci % ctx.nshards != ctx.shard:
@@ -676,5 +716,7 @@ def replay(ctx, case):
     if case.get("op") == "init-postcondition":
         ctx.note("init-postcondition violations are replayed by re-running the workload of the class")
     name = case["cls"]
+    if case.get("base_first"):
+        ref_decl.touch_base_classes()
     run_class(ctx, name, ref_decl.all_classes()[name], case.get("seedstr", f"C04/replay/{name}"))
     online.flush(ctx)
